@@ -13,7 +13,7 @@ PRELOAD = ["scenic", "scenic.core.scenarios", "scenic.syntax.translator"]
 LEVEL = "other"
 EXPLANATION = (
     "(a) Iteration-order invariance: a program is compiled twice, once normally and once with the name `set` "
-    "in scenic.core.requirements and scenic.core.dynamics.scenarios bound to PermSet, a set whose iteration "
+    "in the compile-time modules (requirements, scenarios, dynamics, veneer, translator) bound to PermSet, a set whose iteration "
     "order is a chosen permutation of insertion order (the language leaves set order unspecified; in CPython it "
     "depends on object addresses).  Both compiled scenarios then sample under CrossHair from ONE symbolic RNG "
     "stream (the i-th draw consumes stream[i]); z3 decides that every parameter of the two scenes is equal for "
@@ -30,10 +30,14 @@ MANIFEST_ENTRY = {
 }
 ASSUMPTIONS = ["set iteration order is an arbitrary permutation of insertion order (language semantics)"]
 
-class PermSet:
-    perm = None  # permutation applied on iteration (a function on lists); set per subclass
+def _same(x, y):
+    return x is y or (type(x) in (str, int, float, bytes, bool, type(None)) and type(y) is type(x) and x == y)
 
-    """Stand-in for `set` with an explicit, controllable iteration order."""
+
+class PermSet:
+    """Stand-in for `set` with an explicit, controllable iteration order (identity / plain-value membership)."""
+
+    perm = None  # permutation applied on iteration (a function on lists); set per subclass
 
     def __init__(self, it=()):
         self._items = []
@@ -41,13 +45,84 @@ class PermSet:
             self.add(x)
 
     def add(self, x):
-        if not any(x is y for y in self._items):
+        if not any(_same(x, y) for y in self._items):
             self._items.append(x)
+
+    def discard(self, x):
+        self._items = [y for y in self._items if not _same(x, y)]
+
+    def remove(self, x):
+        if x not in self:
+            raise KeyError(x)
+        self.discard(x)
+
+    def pop(self):
+        return self._items.pop()
+
+    def clear(self):
+        self._items = []
+
+    def copy(self):
+        return type(self)(self._items)
 
     def update(self, *others):
         for o in others:
             for x in o:
                 self.add(x)
+
+    def union(self, *others):
+        r = type(self)(self._items)
+        r.update(*others)
+        return r
+
+    def difference(self, *others):
+        r = type(self)()
+        for x in self._items:
+            if not any(any(_same(x, y) for y in o) for o in others):
+                r.add(x)
+        return r
+
+    def intersection(self, *others):
+        r = type(self)()
+        for x in self._items:
+            if all(any(_same(x, y) for y in o) for o in others):
+                r.add(x)
+        return r
+
+    def difference_update(self, *others):
+        self._items = self.difference(*others)._items
+
+    def issubset(self, other):
+        return all(any(_same(x, y) for y in other) for x in self._items)
+
+    def issuperset(self, other):
+        return all(x in self for x in other)
+
+    def isdisjoint(self, other):
+        return not any(x in self for x in other)
+
+    __or__ = lambda self, o: self.union(o)
+    __ror__ = __or__
+    __sub__ = lambda self, o: self.difference(o)
+    __and__ = lambda self, o: self.intersection(o)
+    __le__ = lambda self, o: self.issubset(o)
+    __ge__ = lambda self, o: self.issuperset(o)
+
+    def __ior__(self, o):
+        self.update(o)
+        return self
+
+    def __isub__(self, o):
+        self.difference_update(o)
+        return self
+
+    def __eq__(self, o):
+        try:
+            return len(self) == len(o) and self.issubset(o)
+        except TypeError:
+            return NotImplemented
+
+    __hash__ = None
 
     def __iter__(self):
         items = list(self._items)
@@ -57,10 +132,13 @@ class PermSet:
         return len(self._items)
 
     def __contains__(self, x):
-        return any(x is y for y in self._items)
+        return any(_same(x, y) for y in self._items)
 
     def __bool__(self):
         return bool(self._items)
+
+    def __repr__(self):
+        return f"PermSet({self._items!r})"
 
 
 PROGRAMS = {
@@ -82,6 +160,31 @@ PROGRAMS = {
         "param pz = z\n"),
 }
 
+PROGRAMS["can-see-requirement"] = (
+    "ego = new Object at (0, 0), with allowCollisions True, with requireVisible False\n"
+    "other = new Object at (5, 0), with allowCollisions True, with requireVisible False\n"
+    "a = DiscreteRange(0, 9)\nb = DiscreteRange(0, 9)\nc = DiscreteRange(0, 9)\n"
+    "require (ego can see other) and a < b\n"
+    "param pc = c\n")
+PROGRAMS["helper-functions-with-closures"] = (
+    "ego = new Object at (0, 0), with allowCollisions True, with requireVisible False\n"
+    "def mk(v):\n    def get():\n        return v\n    return get\n"
+    "fa = mk(DiscreteRange(0, 9))\nfb = mk(DiscreteRange(0, 9))\nc = DiscreteRange(0, 9)\n"
+    "require fa() < fb()\n"
+    "param pc = c\n")
+# behaviours (and the random globals only they use) in two modules: {file name: text}, main file last
+MODULAR = {
+    "two-behavior-modules": {
+        "c15lib.scenic": "l0 = DiscreteRange(0, 9)\nl1 = DiscreteRange(0, 9)\nl2 = DiscreteRange(0, 9)\n"
+                         "behavior LibB():\n    while True:\n        if l0 + l1 + l2 > 100:\n            wait\n        wait\n",
+        "c15main.scenic": "from c15lib import LibB\nm0 = DiscreteRange(0, 9)\nm1 = DiscreteRange(0, 9)\n"
+                          "behavior MainB():\n    while True:\n        if m0 + m1 > 100:\n            wait\n        wait\n"
+                          "ego = new Object at (0, 0), with behavior MainB(), with allowCollisions True, with requireVisible False\n"
+                          "other = new Object at (5, 5), with behavior LibB(), with allowCollisions True, with requireVisible False\n"
+                          "m2 = DiscreteRange(0, 9)\nparam pm = m2\n",
+    },
+}
+
 _rev, _rot, _id = (lambda l: l[::-1]), (lambda l: l[1:] + l[:1]), None
 # (order of the per-requirement dependency set, order of the per-scenario union of those sets)
 PERMS = {"requirement-set-reversed": (_rev, _id), "scenario-set-reversed": (_id, _rev), "both-rotated": (_rot, _rot),
@@ -90,27 +193,53 @@ PERMS = {"requirement-set-reversed": (_rev, _id), "scenario-set-reversed": (_id,
 _SC = {}
 
 
-def compile_pair(name, perm):
-    import scenic
-    import scenic.core.dynamics.scenarios as DS
-    import scenic.core.requirements as RQ
+INJECT = ["scenic.core.requirements", "scenic.core.dynamics.scenarios", "scenic.core.scenarios", "scenic.syntax.veneer",
+          "scenic.core.dynamics.behaviors", "scenic.core.dynamics.invocables", "scenic.syntax.translator"]
+# the first module gets the `inner` permutation, every other one the `outer` permutation
 
-    src = PROGRAMS[name]
-    normal = scenic.scenarioFromString(src, mode2D=True)
-    had = [("set" in m.__dict__, m.__dict__.get("set")) for m in (RQ, DS)]
-    inner, outer = PERMS[perm]
-    RQ.set = type("PermSetRQ", (PermSet,), {"perm": staticmethod(inner) if inner else None})
-    DS.set = type("PermSetDS", (PermSet,), {"perm": staticmethod(outer) if outer else None})
+
+def _compile(name):
+    import scenic
+
+    if name in PROGRAMS:
+        return scenic.scenarioFromString(PROGRAMS[name], mode2D=True)
+    import shutil
+    import tempfile
+
+    d = tempfile.mkdtemp(prefix="c15_")
     try:
-        permuted = scenic.scenarioFromString(src, mode2D=True)
+        for fn, txt in MODULAR[name].items():
+            with open(os.path.join(d, fn), "w") as f:
+                f.write(txt)
+        for m in [m for m in sys.modules if m.startswith("c15")]:
+            del sys.modules[m]
+        return scenic.scenarioFromFile(os.path.join(d, list(MODULAR[name])[-1]), mode2D=True)
     finally:
-        for m, (h, v) in zip((RQ, DS), had):
+        shutil.rmtree(d, ignore_errors=True)
+
+
+def compile_pair(name, perm):
+    """Three compilations: real sets, PermSet in insertion order, PermSet with the chosen permutation."""
+    import importlib
+
+    mods = [importlib.import_module(m) for m in INJECT]
+    normal = _compile(name)
+    had = [("set" in m.__dict__, m.__dict__.get("set")) for m in mods]
+    variants = []
+    try:
+        for inner, outer in ((None, None), PERMS[perm]):
+            for i, m in enumerate(mods):
+                p = inner if i == 0 else outer
+                m.set = type("PermSet_" + m.__name__.rsplit(".", 1)[-1], (PermSet,), {"perm": staticmethod(p) if p else None})
+            variants.append(_compile(name))
+    finally:
+        for m, (h, v) in zip(mods, had):
             if h:
                 m.set = v
             else:
                 del m.set
-    _SC[(name, perm)] = (normal, permuted)
-    for sc in (normal, permuted):  # warm-up (lazy caches)
+    _SC[(name, perm)] = (normal, variants[0], variants[1])
+    for sc in _SC[(name, perm)]:  # warm-up (lazy caches)
         for _ in range(2):
             sc.generate(maxIterations=20)
 
@@ -130,7 +259,7 @@ def harness_for(name, perm):
     def h(ctx):
         from scenic.core.distributions import RejectionException
 
-        normal, permuted = _SC[(name, perm)]
+        scenarios = _SC[(name, perm)]
         st = Stream(ctx, 10)
         saved = (random.randint, random.random)
         outs = []
@@ -142,25 +271,30 @@ def harness_for(name, perm):
             tick = [0.0]
             saved_clock = _time.perf_counter
             _time.perf_counter = lambda: tick.__setitem__(0, tick[0] + 1.0) or tick[0]
-            for sc in (normal, permuted):
+            for sc in scenarios:
                 sc.setSampleChecker(WeightedAcceptanceChecker(bufferSize=100))
                 st.pos = 0
                 random.randint = st.randint
                 try:
                     scene, its = sc._generateInner(2, 0, None)
-                    outs.append((dict(scene.params), st.pos, its))
+                    vals = dict(scene.params)
+                    for modName, (_ns, sampled, _orig) in scene.behaviorNamespaces.items():
+                        for k, v in sampled.items():
+                            if isinstance(v, int) or E.is_symbolic(v):
+                                vals[f"{modName.rsplit('.', 1)[-1]}.{k}"] = v
+                    outs.append((vals, st.pos, its))
                 except RejectionException:
                     outs.append(({}, st.pos, "rejected"))
         finally:
             random.randint, random.random = saved
             _time.perf_counter = saved_clock
-        (p1, n1, i1), (p2, n2, i2) = outs
-        ctx.check("same-outcome-and-attempt-count", i1 == i2, normal=i1, permuted=i2, permutation=perm)
-        ctx.check("same-number-of-draws", n1 == n2, normal=n1, permuted=n2)
-        if sorted(p1) != sorted(p2):
-            return
-        for k in sorted(p1):
-            ctx.check("scene-independent-of-set-iteration-order", p1[k] == p2[k], parameter=k, permutation=perm)
+        for (p1, n1, i1), (p2, n2, i2), what in ((outs[1], outs[2], "insertion order vs permuted"), (outs[0], outs[2], "real sets vs permuted")):
+            ctx.check("same-outcome-and-attempt-count", i1 == i2, first=i1, second=i2, permutation=perm, compared=what)
+            ctx.check("same-number-of-draws", n1 == n2, first=n1, second=n2, compared=what)
+            if sorted(p1) != sorted(p2):
+                continue
+            for k in sorted(p1):
+                ctx.check("scene-independent-of-set-iteration-order", p1[k] == p2[k], parameter=k, permutation=perm, compared=what)
 
     return h
 
@@ -270,17 +404,17 @@ def obligations(tier, seed):
 
     obs = []
     perms = ["requirement-set-reversed", "scenario-set-reversed"] if tier == "quick" else list(PERMS)
-    for name in PROGRAMS:
+    for name in list(PROGRAMS) + list(MODULAR):
         for perm in perms:
             obs.append(Obligation(f"set-order[{name}][{perm}]", harness_for(name, perm),
-                                  PROGRAMS[name].replace("\n", " ; "),
+                                  (PROGRAMS.get(name) or " || ".join(MODULAR[name].values())).replace("\n", " ; "),
                                   {"requirement_only_random_values": "2-3", "stream": "8 symbolic draws in 0..9", "permutation": perm},
                                   [RQ.PendingRequirement.compile, DS.DynamicScenario._compileRequirements, S.Scenario.__init__,
                                    S.Scenario._generateInner],
-                                  ["PermSet: set with permuted iteration order injected as `set` into scenic.core.requirements and scenic.core.dynamics.scenarios",
+                                  ["PermSet: set with permuted iteration order injected as the name `set` into " + ", ".join(INJECT),
                                    "random.randint: i-th call returns stream[i]"],
                                   setup=(lambda name=name, perm=perm: compile_pair(name, perm)),
-                                  system_replay=system_replay_for(name), opts=dict(total_timeout=200.0)))
+                                  system_replay=(system_replay_for(name) if name in PROGRAMS else None), opts=dict(total_timeout=200.0)))
     obs.append(Obligation("checker-isolation", h_checker_isolation, "RNG state saved/restored around requirement checking",
                           {"attempts": 2, "draws consumed by checker": "0..5 symbolic"}, [S.Scenario._generateInner],
                           ["random.getstate/setstate, numpy.random.get_state/set_state modelled over a state token"]))
